@@ -33,8 +33,25 @@ func ruleC07(r *Report) {
 	safely(r, func() { checkSessionCopy(r, p) })
 	r.Rule("C07.registration", "what the SP publishes in Metadata() is what it sends and insists on: entity ID = request issuer = expected audience, an HTTP-POST ACS endpoint at the expected recipient = the ACS URL in requests, the SP certificate as encryption key", 2)
 	safely(r, func() { checkRegistration(r, p) })
+	// ... and on the reading side: the unmarshal helpers the library calls turn the verified element into bytes for
+	// encoding/xml with the same settings (a raw CR written there is normalised to LF by the decoder)
+	var usedUnmarshal map[*ssa.Function]bool
+	safely(r, func() {
+		usedUnmarshal = map[*ssa.Function]bool{}
+		um := findSigRoles(p).Unmarshal
+		for round := 0; round < 4; round++ {
+			for f := range um {
+				for _, cs := range p.StaticCallersOf(f) {
+					// called by library code that is not itself an unused helper of this kind
+					if p.InLibrary(cs.Caller) && (!um[cs.Caller] || usedUnmarshal[cs.Caller]) {
+						usedUnmarshal[f] = true
+					}
+				}
+			}
+		}
+	})
 	checkEscape(r, p, "C07.escape", func(fn *ssa.Function) bool {
-		return fn.Signature.Recv() != nil && (isMethodOf(fn, "IdpAuthnRequest") || isMethodOf(fn, "IdentityProvider")) || isElementSerialiser(p, fn)
+		return fn.Signature.Recv() != nil && (isMethodOf(fn, "IdpAuthnRequest") || isMethodOf(fn, "IdentityProvider")) || isElementSerialiser(p, fn) || usedUnmarshal[fn]
 	})
 	safely(r, func() { checkNoCDATA(r, p, "C07.escape") })
 	// the reading side: what the SP unmarshals is the verified element's own content (white-space-only values included)
@@ -549,6 +566,11 @@ func checkBuilders(r *Report, p *Prog) {
 					k := readerName(b.st, o.field)
 					cp, cl := splitQName(cb.name)
 					schemaCheck(k.mode == "element" && k.name == cl && (k.ns == "" || k.ns == prefixNS[cp]), o.field, cons, p.InstrPos(in), fmt.Sprintf("%s read as element {%s}%s", cb.name, k.ns, k.name), fmt.Sprintf("the child is written as %s (namespace %q) but field %s is read back as %s {%s}%s", cb.name, prefixNS[cp], fname, k.mode, k.ns, k.name))
+					if len(o.chain) > 0 {
+						// the builder is handed a function of the field (a filtered, merged or re-ordered list, a rewritten child)
+						r.Bad("C07.verbatim", cons+": source", p.InstrPos(in), fmt.Sprintf("the child is built from %s applied to %s, not from the field itself", strings.Join(o.chain, "∘"), fname))
+						return
+					}
 					_, isSlice := b.st.Field(o.field).Type().Underlying().(*types.Slice)
 					if isSlice {
 						emitted[o.field] = append(emitted[o.field], in)
